@@ -65,6 +65,9 @@ def sub_kernel(case, via_accessor=False):
     x = np.array(case["x"], dtype="int16")
     pos, template, labels, bounds = _layout(case)
     nper = len(bounds)
+    ldt = case.get("label_dtype", "int32")
+    if ldt != "int32" and via_accessor and labels.min() >= np.iinfo(ldt).min and labels.max() <= np.iinfo(ldt).max:
+        labels = labels.astype(ldt)  # the accessor accepts any integer label dtype that casts safely to int32
     t0, l0 = template.copy(), labels.copy()
     if via_accessor:
         npx = case.get("npx", 1)
@@ -180,6 +183,7 @@ def tcase(draw, nmax, accessor=False):
     else:
         case["x"] = draw(gens.series(n=n, classes=["seasonal", "walk", "step", "flat_spikes"]))["y"]
     if accessor:
+        case["label_dtype"] = draw(st.sampled_from(["int32", "int32", "int16", "uint8", "uint16", "int8"]))
         case["npx"] = draw(st.integers(1, 3))
         case["dims"] = list(draw(st.permutations(["time", "y", "x"])))
     return case
